@@ -133,12 +133,12 @@ func configReloader(c chan bool, router proxy.Router, cache caching.Cache, logge
 			logger.Errorf("ConfigReloader: caught error parsing rules when refreshing config: %v", err)
 			continue
 		}
-		router.SetRules(rules)
 		cfgs, err := caching.ParseStorageConfigs(mappingData)
 		if err != nil {
 			logger.Errorf("ConfigReloader: caught error parsing storage configs when refreshing config: %v", err)
 			continue
 		}
+		router.SetRules(rules)
 		cache.SetStorageConfigs(cfgs)
 		gMappingChecksum = util.SHA1String(mappingData)
 		logger.Infof("ConfigReloader: new settings loaded")
